@@ -343,6 +343,9 @@ impl<'tx> TxInner<'tx> {
             self.check()?;
         }
         if let TxLock::Rw(file) = &mut self.lock {
+            // Make sure every data page is durable before the header that points at them can be:
+            // otherwise a power loss could persist the new header without (all of) its pages.
+            file.sync_all()?;
             // write meta page to file
             {
                 let mut buf = vec![0; self.db.inner.pagesize as usize];
